@@ -36,10 +36,14 @@ def execMapOp (st : DState) (env : Env) (name : String) (args : List String) (ot
   | "into_iter_fold", [k] =>
     no <| resOut (Map.intoIter cfg (foldEnv env (nat! k) w) (if nat! k = 0 then w.t.items else nat! k) w) (fun l => String.intercalate "," (l.map (fmtElem ids))) w
   | "iter", p :: rest =>
-    match iterObserveW cfg w.t (match rest with | ["keys"] => .mapKeys | ["values"] => .mapValues | ["values_mut"] => .mapValuesMut | ["iter_mut"] => .mapIterMut | _ => .mapIter) (nat! p) with
+    match iterObserveW cfg w.t (match rest.head? with | some "keys" => .mapKeys | some "values" => .mapValues | some "values_mut" => .mapValuesMut | some "iter_mut" => .mapIterMut | _ => .mapIter) (nat! p) with
     | .error f => ({ ret := s!"FAULT({f})", w := w }, true, none)
-    | .ok (pre, folded, rest, hints) =>
-      ({ ret := s!"pre={fmtNats pre} fold={fmtNats folded} rest={fmtNats rest} sh={fmtNats hints}", w := w }, false, none)
+    | .ok (pre, folded, rest_, hints) =>
+      -- third argument `nth`: after the prefix, `nth` far past the end exhausts the iterator
+      if rest.length = 2 then
+        ({ ret := s!"pre={fmtNats pre} fold= rest= sh={fmtNats (hints ++ [0])}", w := w }, false, none)
+      else
+      ({ ret := s!"pre={fmtNats pre} fold={fmtNats folded} rest={fmtNats rest_} sh={fmtNats hints}", w := w }, false, none)
   | "with_capacity", [n] =>
     -- the old collection is dropped, a new one created
     let r : Res World := do
